@@ -11,20 +11,18 @@ from harness import c02 as P
 import vlib
 
 LEVEL_TEXT = ('Lean 4 theorems about the model of propagate_fft, for all fields, samplings, oversampling factors, shapes and scratch '
-              'buffers: the centred FFT (fftshift . fft2 ortho . ifftshift by their NumPy contracts) equals the unitary dft2 with '
-              'alpha = 1/S and both origins at floor(S/2) for even and odd grids (generic, and instantiated at C/R with no hypotheses); '
-              'for isotropic dx*du the reported wavelength makes alpha = 1/S on both axes, hence every output sample equals dft2 of '
-              'the same padded grid at the reported wavelength; the result with a sufficient scratch buffer of any size and content equals the result without scratch '
-              '(scratch grid = pad(Wavefront.field) proved on the generated insert kernel); a buffer of exactly fft_shape is accepted, smaller ones, shapes with shape*oversample > fft_shape and '
-              'tilted wavefronts are refused. The model is tied to the implementation by a differential correspondence at Float. '
-              'Partial: see note.')
-LEVEL_NOTE = ('Partial: np.fft.fft2/fftshift/ifftshift and np.round enter through their documented contracts (not verified); that '
-              'dft2 of the padded grid is propagate_dft of the individual fields with their offsets is carried by the '
-              'correspondence/oracle (needs C01 dft2_subarray_offset); '
-              'anisotropic dx*du is excluded by hypothesis (known finding KF-C09-fft-anisotropic-wavelength). '
-              'Trusted: Lean kernel, py2lean subset semantics, generator coverage.')
+              'buffers: at C/R and isotropic dx·du, every sample of Wavefront.field of propagate_fft equals the sample of Wavefront.field of '
+              'the propagate_dft model (C02, proved against the Fraunhofer sum) at the reported wavelength, for every accepted output shape, '
+              'with or without scratch (centred FFT = unitary dft2 with alpha = 1/S for both parities by the NumPy contracts; reported '
+              'wavelength makes alpha = 1/S; dft2 of the padded grid = sum of per-field dft2 with offsets); the result with a sufficient '
+              'scratch of any size/content equals the result without; a buffer of exactly fft_shape is accepted, smaller ones, shapes with '
+              'shape·oversample > fft_shape and wavefronts in which ANY field carries tilt are refused. Scratch slice regions, _has_tilt, '
+              '_dft_alpha and the _fft_shape wiring are regenerated from propagate.py; the rest is a hand model with differential correspondence.')
+LEVEL_NOTE = ('Partial: np.fft.fft2/fftshift/ifftshift and np.round/np.min enter through their documented contracts (not verified); '
+              'util.pad is a hand model; scratch_shape for a list of wavelengths (np.max) is oracle-only; anisotropic dx·du is excluded by '
+              'hypothesis (known finding KF-C09-fft-anisotropic-wavelength). Trusted: Lean kernel, py2lean subset semantics, generator coverage.')
 TECHNIQUE = 'Lean 4 proof (finite-sum reindexing, omega) over hand model with differential correspondence at Float'
-GEN = ['Extent', 'FieldIdx', 'FftScratch']
+GEN = ['Extent', 'FieldIdx', 'FftScratch', 'PropagateMeta']
 OPS = ['C02', 'C09']
 RULE = ('cases: pupils 1..6 x 1..6 (even/odd/non-square, off-centre, segmented) no larger than the grid; FFT grids 2..12 of both '
         'parities chosen through du (1/alpha within +-0.35 of the target, incl. non-integer); oversample 1..4; shape None/int/pair '
@@ -34,7 +32,7 @@ RULE = ('cases: pupils 1..6 x 1..6 (even/odd/non-square, off-centre, segmented) 
         'non-trivial = odd grid or scratch or explicit shape or refusal')
 TRUSTED = ['np.fft.fft2(norm="ortho") = unitary DFT with origin at index 0; np.fft.fftshift/ifftshift = rotations by +-floor(n/2); '
            'np.round = round-half-even; lentil.field.insert as modelled by insertArr (C06)']
-UNPROVEN = ['dft2 of the padded grid = propagate_dft of the individual fields with offsets (C01 dft2_subarray_offset + C02; oracle-checked)',
+UNPROVEN = ['scratch_shape(wavelength=list) is sufficient for every listed wavelength (np.max; monotonicity of round(1/alpha) in wavelength): oracle only',
             'anisotropic dx*du (known finding): a single reported wavelength cannot describe two per-axis grids']
 ASSUMPTIONS = ['pupil (wavefront.shape) no larger than the FFT grid; isotropic dx*du for the FFT = DFT clause; oversample >= 1']
 
@@ -50,6 +48,7 @@ def generate(rng, tier):
         p = P._pupil(rng, 6)
         m, nn = p['shape']
         os_ = int(rng.integers(1, 5))
+        WL = float(rng.choice([5e-7, 4.25e-7, 6.5e-7, 1.1e-6])); Z = float(rng.choice([8.0, 2.5, 20.0, 0.75]))
         smax = 12 if tier != 'thorough' else 16
         cls = 'aniso' if k % 5 == 4 else 'iso'
         if rng.integers(0, 2): dx = [1 / 64, 1 / 64]; scalar_dx = True
@@ -68,7 +67,7 @@ def generate(rng, tier):
         if t <= 1: shape = None
         elif t == 2: shape = int(rng.integers(1, max(2, Smin // os_ + 1)))
         elif t == 3: shape = [int(rng.integers(1, max(2, Smin // os_ + 1))), int(rng.integers(1, max(2, Smin // os_ + 1)))]
-        elif t == 4: shape = [Smin // os_ + int(rng.integers(0, 2)), Smin // os_ + 1]      # too large on at least one axis
+        elif t == 4: shape = [max(1, Smin // os_ + int(rng.integers(0, 2))), Smin // os_ + 1]      # too large on at least one axis
         else: shape = Smin // os_ if Smin // os_ >= 1 else None                            # the largest accepted
         t = rng.integers(0, 7)
         if t <= 1: scratch = None
@@ -84,15 +83,39 @@ def generate(rng, tier):
             if scratch['size'] == 'larger': scratch['pad'] = [int(rng.integers(0, 4)), int(rng.integers(1, 4))]
             if shape is not None and rng.integers(0, 2): shape = None
         tilt = None
-        if rng.integers(0, 12) == 0: tilt = [float(rng.uniform(-1e-6, 1e-6)), float(rng.uniform(-1e-6, 1e-6))]
+        if rng.integers(0, 10) == 0: tilt = [float(rng.uniform(-1e-6, 1e-6)), float(rng.uniform(-1e-6, 1e-6))]
+        # which fields carry the tilt: all of them (Tilt plane / Wavefront(tilt)), or only ONE segment of a segmented pupil
+        tilt_on = 'all'
+        if tilt is not None and p['seg'] is not None and rng.integers(0, 3) > 0: tilt_on = int(rng.integers(0, max(p['seg'])))
+        # scratch_shape may be asked for a list of wavelengths (broadband): the buffer must do for each of them
+        wl_list = None
+        if scratch is not None and scratch['size'] != 'small' and rng.integers(0, 3) == 0:
+            wl_list = [WL * f for f in (0.7, 1.0, 0.85)] if rng.integers(0, 2) else [WL, WL * 0.6]
+            if rng.integers(0, 2): wl_list = wl_list[::-1]
         out.append({'kind': 'fft', 'class': cls, 'pupil': p, 'dx': dx, 'scalar_dx': bool(scalar_dx), 'du': du, 'scalar_du': scalar_du,
-                    'os': os_, 'shape': shape, 'scratch': scratch, 'tilt': tilt, 'wtilt': bool(tilt is not None and rng.integers(0, 2))})
+                    'wl': WL, 'z': Z, 'os': os_, 'shape': shape, 'scratch': scratch, 'tilt': tilt, 'tilt_on': tilt_on, 'wl_list': wl_list,
+                    'wtilt': bool(tilt is not None and tilt_on == 'all' and rng.integers(0, 2))})
     return out
 
 # ------------------------------------------------------------------------------------------ implementation
 def _wave(c):
     import lentil
-    w = P._build({'pupil': c['pupil'], 'dx': c['dx'], 'scalar_dx': c['scalar_dx']})
+    WL, Z = P._wz(c)
+    if c['tilt'] is not None and c.get('tilt_on', 'all') != 'all':
+        # a segmented wavefront in which ONE field only (not necessarily the first) carries a tilt element
+        p = c['pupil']; m, n = p['shape']
+        seg = np.array(p['seg']).reshape(m, n)
+        mask = np.array([(seg == k).astype(int) for k in range(1, seg.max() + 1)])
+        dx = c['dx'][0] if c['scalar_dx'] else tuple(c['dx'])
+        pupil = lentil.Pupil(amplitude=np.array(p['amp']).reshape(m, n), opd=np.array(p['opd']).reshape(m, n), mask=mask, pixelscale=dx, focal_length=Z)
+        k = int(c['tilt_on'])
+        w = lentil.Wavefront(wavelength=WL) * pupil
+        from lentil.field import Field
+        if k < len(w.data):
+            f = w.data[k]
+            w.data[k] = Field(data=f.data, pixelscale=f.pixelscale, offset=f.offset, tilt=[lentil.Tilt(x=c['tilt'][0], y=c['tilt'][1])])
+        return w
+    w = P._build({'pupil': c['pupil'], 'dx': c['dx'], 'scalar_dx': c['scalar_dx'], 'wl': WL, 'z': Z})
     if c['tilt'] is not None:
         if c.get('wtilt'):
             p = c['pupil']; m, n = p['shape']
@@ -105,6 +128,7 @@ def _wave(c):
 
 def _scratch(c, S):
     import lentil
+    WL, Z = P._wz(c)
     s = c['scratch']
     if s is None: return None
     shp = (max(1, S[0] + s['pad'][0]), max(1, S[1] + s['pad'][1]))
@@ -124,14 +148,20 @@ def _scratch(c, S):
 def impl(c):
     vlib.import_lentil()
     import lentil, copy
+    WL, Z = P._wz(c)
     w = _wave(c)
     du = c['du'][0] if c['scalar_du'] else tuple(c['du'])
     dxa = c['dx'][0] if c['scalar_dx'] else tuple(c['dx'])
     adv = [int(x) for x in lentil.propagate.scratch_shape(WL, dxa, du, Z, c['os'])]
+    adv_list = None
+    if c.get('wl_list'):
+        adv_list = [int(x) for x in lentil.propagate.scratch_shape(list(c['wl_list']), dxa, du, Z, c['os'])]
+        adv_each = [[int(x) for x in lentil.propagate.scratch_shape(wl, dxa, du, Z, c['os'])] for wl in c['wl_list']]
     shape = c['shape'] if not isinstance(c['shape'], list) else tuple(c['shape'])
-    scr = _scratch(c, adv)
+    scr = _scratch(c, adv_list if adv_list is not None else adv)
     inp = {'fields': [dict(P._cx(f.data), off=[int(f.offset[0]), int(f.offset[1])]) for f in w.data],
-           'has_tilt': bool(any(f.tilt for f in w.data)), 'canvas': P._cx(w.field), 'shape': [int(x) for x in w.shape],
+           'has_tilt': bool(any(f.tilt for f in w.data)), 'ntilt': [len(f.tilt) for f in w.data],
+           'advertised_list': adv_list, 'advertised_each': None if adv_list is None else adv_each, 'canvas': P._cx(w.field), 'shape': [int(x) for x in w.shape],
            'pixelscale': [float(x) for x in w.pixelscale], 'wavelength': float(w.wavelength), 'focal_length': float(w.focal_length),
            'scratch': None if scr is None else P._cx(scr), 'advertised': adv}
     try:
@@ -158,7 +188,7 @@ def requests(c, io):
     scr = inp['scratch']
     return [{'op': 'c09.propagate_fft',
              'fields': [{'shape': f['shape'], 'off': f['off'], 're': vlib.fl(f['re']), 'im': vlib.fl(f['im'])} for f in inp['fields']],
-             'has_tilt': inp['has_tilt'], 'wshape': inp['shape'], 'dx': vlib.fl(inp['pixelscale']), 'du': vlib.fl(c['du']),
+             'ntilt': inp['ntilt'], 'wshape': inp['shape'], 'dx': vlib.fl(inp['pixelscale']), 'du': vlib.fl(c['du']),
              'wl': vlib.fbits(inp['wavelength']), 'z': vlib.fbits(inp['focal_length']), 'os': c['os'], 'shape': shape,
              'scratch': None if scr is None else {'shape': scr['shape'], 're': vlib.fl(scr['re']), 'im': vlib.fl(scr['im'])}}]
 
@@ -188,6 +218,12 @@ ANISO_MSG = 'differs from propagate_dft at the reported wavelength'
 def oracle(c, io):
     inp = io['in']
     os_ = c['os']
+    WL, Z = P._wz(c)
+    if inp.get('advertised_list') is not None:
+        # a buffer advertised for a list of wavelengths must be sufficient for every one of them
+        for wl, each in zip(c['wl_list'], inp['advertised_each']):
+            if inp['advertised_list'][0] < each[0] or inp['advertised_list'][1] < each[1]:
+                return f"scratch_shape for wavelengths {c['wl_list']} is {inp['advertised_list']}, smaller than the grid {each} needed at {wl:.4g}"
     # the grid, from the property's own definition: round(1/alpha) per axis
     S = []
     for a in (0, 1):
@@ -198,12 +234,12 @@ def oracle(c, io):
     shape = c['shape']
     sh = None if shape is None else ([shape, shape] if isinstance(shape, int) else list(shape))
     want_exc = None
-    if inp['has_tilt']: want_exc = 'NotImplementedError'
+    if any(n > 0 for n in inp['ntilt']): want_exc = 'NotImplementedError'      # ANY field carrying tilt
     elif sh is not None and (sh[0] * os_ > S[0] or sh[1] * os_ > S[1]): want_exc = 'ValueError'
     elif inp['scratch'] is not None and (inp['scratch']['shape'][0] < S[0] or inp['scratch']['shape'][1] < S[1]): want_exc = 'ValueError'
     if want_exc:
         if io.get('exc') == want_exc: return None
-        what = 'a tilted wavefront' if inp['has_tilt'] else (f'shape {sh} larger than the grid {S}/os={os_}' if want_exc == 'ValueError' and sh is not None and (sh[0] * os_ > S[0] or sh[1] * os_ > S[1]) else f"scratch {inp['scratch']['shape']} smaller than {S}")
+        what = f"a wavefront whose fields carry {inp['ntilt']} tilt elements" if any(inp['ntilt']) else (f'shape {sh} larger than the grid {S}/os={os_}' if want_exc == 'ValueError' and sh is not None and (sh[0] * os_ > S[0] or sh[1] * os_ > S[1]) else f"scratch {inp['scratch']['shape']} smaller than {S}")
         return f"{what} must be refused with {want_exc}, got {io.get('exc', 'a result')}"
     if 'exc' in io:
         scr = inp['scratch']
@@ -215,6 +251,7 @@ def oracle(c, io):
     if any(abs(a - b / os_) > 1e-12 * b for a, b in zip(io['pixelscale'], c['du'])): return 'output sampling != du/oversample'
     got = _c(io['out'])
     tol = P._tol(io)
+    if got.size == 0: return None
     if 'noscratch' in io:
         d = float(np.max(np.abs(got - _c(io['noscratch']))))
         if d > 1e-12 * (1 + float(np.max(np.abs(got)))): return f"result with scratch ({c['scratch']['size']}, {c['scratch']['content']}) differs from the result without scratch by {d:.3e}"
@@ -243,22 +280,24 @@ def replay_finding(kf):
 # ------------------------------------------------------------------------------------------ coverage
 def signature(c):
     s = c['scratch']
-    return (f"{c['class']} {c['pupil']['shape']} seg={c['pupil']['seg'] is not None} du={c['du'][0]:.6g},{c['du'][1]:.6g} os={c['os']} shape={c['shape']} "
+    return (f"{c['class']} wl={P._wz(c)[0]:.3g} z={P._wz(c)[1]:g} wll={c.get('wl_list') is not None} ton={c.get('tilt_on')} {c['pupil']['shape']} seg={c['pupil']['seg'] is not None} du={c['du'][0]:.6g},{c['du'][1]:.6g} os={c['os']} shape={c['shape']} "
             f"scratch={None if s is None else (s['size'], s['content'], s['pad'])} tilt={c['tilt'] is not None}")
 
 def nontrivial(c):
     return bool(c['scratch'] is not None or c['shape'] is not None or c['tilt'] is not None or c['class'] == 'aniso'
-                or _even_round(WL * Z * c['os'] / (c['dx'][0] * c['du'][0])) % 2 == 1)
+                or _even_round(P._wz(c)[0] * P._wz(c)[1] * c['os'] / (c['dx'][0] * c['du'][0])) % 2 == 1)
 
 def tags(c):
-    S = _even_round(WL * Z * c['os'] / (c['dx'][0] * c['du'][0]))
+    S = _even_round(P._wz(c)[0] * P._wz(c)[1] * c['os'] / (c['dx'][0] * c['du'][0]))
     t = [c['class'], f"os={c['os']}", 'grid:' + ('odd' if S % 2 else 'even'),
          'pupil:' + ('odd' if c['pupil']['shape'][0] % 2 else 'even') + '/' + ('odd' if c['pupil']['shape'][1] % 2 else 'even')]
     s = c['scratch']
     t.append('scratch:' + ('none' if s is None else s['size'] + '/' + s['content']))
     sh = c['shape']
     t.append('shape:' + ('default' if sh is None else 'int' if isinstance(sh, int) else 'pair'))
-    if c['tilt'] is not None: t.append('tilted:' + ('wavefront' if c.get('wtilt') else 'plane'))
+    if c['tilt'] is not None: t.append('tilted:' + ('one-segment' if c.get('tilt_on', 'all') != 'all' else 'wavefront' if c.get('wtilt') else 'plane'))
+    if c.get('wl_list'): t.append('scratch_shape:wavelength-list')
+    t.append(f"wl={P._wz(c)[0]:.3g}"); t.append(f"z={P._wz(c)[1]:g}")
     return t
 
 def shrink(c):
